@@ -185,6 +185,25 @@ def trimModelExpect (d : Nat) (fn : String) (args out : List String) : Option St
     else none
   | _ => none
 
+/-- `segm<d> <cls> a b`: `Segment::length` and `Segment::direction` equal the C20 models at `Float` bit for bit -/
+def segmModelExpect (d : Nat) (fn : String) (args out : List String) : Option String :=
+  let p : P (List Float × List Float) := do
+    let _ ← tok; let a ← pvecN d; let b ← pvecN d; pend; pure (a, b)
+  let field (lab : String) (n : Nat) : List String := ((out.dropWhile (· != lab)).drop 1).take n
+  let judge (len : Float) (dir : Option (List Float)) : Option String :=
+    let wantDir := match dir with | none => ["none"] | some v => v.map ff
+    if field "len" 1 != [ff len] then some s!"fail non-finite-or-model-differs Segment::length {tag fn args}"
+    else if field "dir" wantDir.length != wantDir then some s!"fail non-finite-or-model-differs Segment::direction {tag fn args}"
+    else none
+  match run p args with
+  | some ([ax, ay, az], [bx, b_y, bz]) =>
+    let A : V3 Float := ⟨ax, ay, az⟩; let B : V3 Float := ⟨bx, b_y, bz⟩
+    judge (segLength3 A B) ((segDirection3 A B).map fun v => [v.x, v.y, v.z])
+  | some ([ax, ay], [bx, b_y]) =>
+    let A : V2 Float := ⟨ax, ay⟩; let B : V2 Float := ⟨bx, b_y⟩
+    judge (segLength2 A B) ((segDirection2 A B).map fun v => [v.x, v.y])
+  | _ => none
+
 def fns : List String :=
   ["dist", "cp", "ct", "it", "cm", "cast", "nl", "ray", "proj", "mass", "bv", "trim", "segm", "clip", "clipn", "clipal", "cliphp", "sup"]
 
@@ -199,7 +218,7 @@ def handler (fn : String) : Option Handler :=
     oracle := fun args out =>
       if out.contains "noshape" then "skip shape-constructor-refused" else
       -- bit-exact model comparisons first (they also cover the outputs next to a NaN that the generic clause reports)
-      match (if base == "trim" then trimModelExpect d fn args out else none) with
+      match (if base == "trim" then trimModelExpect d fn args out else if base == "segm" then segmModelExpect d fn args out else none) with
       | some v => v
       | none =>
       match generic fn args out with
